@@ -312,7 +312,10 @@ func init() {
 	}
 	externals["(*sync.WaitGroup).Add"] = nop
 	externals["(*sync.WaitGroup).Done"] = nop
-	externals["(*sync.WaitGroup).Wait"] = nop
+	externals["(*sync.WaitGroup).Wait"] = func(in *Interp, fr *frame, args []value) value {
+		in.runPendingGoroutines(fr)
+		return nil
+	}
 	externals["runtime.KeepAlive"] = nop
 	externals["runtime.SetFinalizer"] = nop
 }
